@@ -5,7 +5,7 @@
     arithmetic, transcribed parser loops / recursion depth.  Grammars, translators, binder, planner
     and execution are searched by the check, not proved. *)
 From GV Require Export Lex.Cursor Lex.Check Lex.Lexers Lex.Values Lex.Arith Lex.Progress.
-From GV Require Import Lex.ProofsCursor Lex.ProofsArith Lex.ProofsProgress.
+From GV Require Import Lex.ProofsCursor Lex.ProofsValues Lex.ProofsArith Lex.ProofsProgress.
 Open Scope Z_scope.
 
 (** * 1. lexer cursors *)
@@ -44,6 +44,23 @@ Proof.
   split; [eexists|]; vm_compute; reflexivity.
 Qed.
 Print Assumptions graphql_dedent_refuted.
+
+(** [dedent_block_string] can only crash on white space that is wider than one byte ... *)
+Theorem dedent_crash_needs_wide_whitespace : forall v,
+  (forall c, In c v -> is_wsf c = true -> width (cp c) = 1) -> exists r, dedent v = Done r.
+Proof. exact dedent_total_l. Qed.
+Print Assumptions dedent_crash_needs_wide_whitespace.
+
+(** ... and on ASCII documents the values of all block strings are computed without a crash and
+    without running out of fuel (token starts are character counts, hence not negative) *)
+Theorem graphql_block_values_ascii : forall s ts, Forall (fun c => width (cp c) = 1) s ->
+  Forall (fun t : Z * Z * Z => 0 <= snd (fst t)) ts -> exists vs, block_values s ts = Done vs.
+Proof. exact block_values_ascii_l. Qed.
+Print Assumptions graphql_block_values_ascii.
+
+Theorem graphql_full_ascii : forall s, Forall (fun c => width (cp c) = 1) s -> exists r, lex_graphql_full s = Done r.
+Proof. exact graphql_full_ascii_l. Qed.
+Print Assumptions graphql_full_ascii.
 
 (** * 2. lexer termination: fuel = number of characters + 1 suffices for every lexer, every text *)
 Theorem lex_terminates : forall s,
@@ -101,6 +118,26 @@ Theorem slice_in_bounds : forall len st en, 0 <= len ->
 Proof. exact slice_range_in_bounds_l. Qed.
 Print Assumptions slice_in_bounds.
 
+(** the integer SUM aggregate adds with the plain operator (finding C12-K8) *)
+Theorem sum_overflow_refuted : exists vs, Forall in_i64 vs /\ sum_int Checked 0 vs = Panic.
+Proof.
+  exists [i64_max; 1]. split; [|reflexivity].
+  repeat constructor; unfold in_i64, i64_max, two63; lia.
+Qed.
+Print Assumptions sum_overflow_refuted.
+
+Theorem sum_checked_panics_iff : forall vs acc, sum_int Checked acc vs = Panic <-> ~ prefixes_fit acc vs.
+Proof. exact sum_int_checked_panics_iff_l. Qed.
+Print Assumptions sum_checked_panics_iff.
+
+Theorem sum_exact_when_prefixes_fit : forall m vs acc, prefixes_fit acc vs -> sum_int m acc vs = Ok (acc + zsum vs).
+Proof. exact sum_int_exact_l. Qed.
+Print Assumptions sum_exact_when_prefixes_fit.
+
+Theorem sum_wrapping_never_panics : forall vs acc, sum_int Wrapping acc vs <> Panic.
+Proof. exact sum_int_wrapping_total_l. Qed.
+Print Assumptions sum_wrapping_never_panics.
+
 (** * 4. parser loops and recursion depth *)
 Theorem loops_progress : forall n l more ts, (1 <= n)%nat -> loop_ok n l = true ->
   Forall (fun k => 1 <= k < Z.of_nat n) ts ->
@@ -154,10 +191,16 @@ Proof.
   all: try (exists [(233, 1); (97, 1)], []; split; reflexivity).
   all: try (cbn; lia).
 Qed.
+Example nv_block_value :
+  let s := [(34, 0); (34, 0); (34, 0); (97, 1); (10, 4); (32, 4); (32, 4); (98, 1); (10, 4); (32, 4); (99, 1); (34, 0); (34, 0); (34, 0)] in
+  Forall (fun c => width (cp c) = 1) s /\ lex_graphql_full s = Done ([(11, 0, 14); (0, 14, 14)], [[97; 10; 32; 98; 10; 99]]).
+Proof. split; [repeat constructor|vm_compute; reflexivity]. Qed.
 Example nv_i64 : in_i64 i64_min /\ in_i64 i64_max /\ 0 <= 3 < two63.
 Proof. unfold in_i64, i64_min, i64_max, two63. lia. Qed.
 Example nv_arith : arith OAdd i64_max 1 = AVal None /\ arith ODiv 7 2 = AVal (Some 3) /\ arith OMod (-7) 2 = AVal (Some (-1)).
 Proof. repeat split. Qed.
+Example nv_sum : prefixes_fit 0 [i64_max; i64_min; 5] /\ sum_int Checked 0 [i64_max; i64_min; 5] = Ok 4.
+Proof. split; [|reflexivity]. cbn [prefixes_fit]. unfold in_i64, i64_max, i64_min, two63. lia. Qed.
 Example nv_loop : exists l, In l Gql.loops /\ loop_ok Gql.N l = true /\
   run_loop 4 l (fun _ => Some 1%nat) [Gql.COMMA; Gql.OTHER; Gql.COMMA; Gql.OTHER] = LExit [].
 Proof. exists (nth 7 Gql.loops (wh String.EmptyString [])). split; [cbn; tauto|split; reflexivity]. Qed.
